@@ -56,6 +56,8 @@ package encryption
 //@              tlsConfig.ClientCAs != nil && capool(tlsConfig.ClientCAs, serverConfig.RemoteCAPath)
 //@   ensures @relaxed_only_by_flag: err == nil && tlsConfig != nil && tlsConfig.ClientAuth != tls.RequireAndVerifyClientCert ==> serverConfig.SkipCAVerification
 //@   ensures @skip: enabled(serverConfig) && serverConfig.SkipCAVerification && err == nil ==> tlsConfig != nil && tlsConfig.ClientAuth == tls.NoClientCert
+// verification runs against the real clock and is not replaced: these fields of the configuration stay unset
+//@   ensures @verification_not_overridden: tlsConfig != nil ==> tlsConfig.Time == nil && tlsConfig.VerifyConnection == nil && !tlsConfig.InsecureSkipVerify
 
 // Client role: with verification configured the proxy verifies the server chain (InsecureSkipVerify off),
 // against the configured name and, when a CA path is given, against the pool built from it.
@@ -69,4 +71,5 @@ package encryption
 //@   ensures @pool: enabled(clientConfig) && !clientConfig.SkipCAVerification && err == nil && clientConfig.RemoteCAPath != "" ==>
 //@              tlsConfig.RootCAs != nil && capool(tlsConfig.RootCAs, clientConfig.RemoteCAPath)
 //@   ensures @system_roots: enabled(clientConfig) && err == nil && clientConfig.RemoteCAPath == "" ==> tlsConfig.RootCAs == nil
+//@   ensures @verification_not_overridden: tlsConfig != nil ==> tlsConfig.Time == nil && tlsConfig.VerifyConnection == nil
 //@   ensures @relaxed_only_by_flag: err == nil && tlsConfig != nil && tlsConfig.InsecureSkipVerify ==> clientConfig.SkipCAVerification
